@@ -134,10 +134,13 @@ def mirror : Expr → Option SqlTree
   | .compare op l r => do
       let l' ← mirror l
       let r' ← mirror r
-      match r, op with
-      | .lit .null _, .eq => pure (.bin (S "IS") l' r')
-      | .lit .null _, .ne => pure (.bin (S "ISNOT") l' r')
-      | _, _ => pure (.bin (cmpName op) l' r')
+      -- `null eq x` is the same test as `x eq null` (eq / ne are symmetric): it reads `x IS NULL` as well
+      match l, r, op with
+      | .lit .null _, _, .eq => pure (.bin (S "IS") r' l')
+      | .lit .null _, _, .ne => pure (.bin (S "ISNOT") r' l')
+      | _, .lit .null _, .eq => pure (.bin (S "IS") l' r')
+      | _, .lit .null _, .ne => pure (.bin (S "ISNOT") l' r')
+      | _, _, _ => pure (.bin (cmpName op) l' r')
   | .boolop op l r => do
       let l' ← mirror l
       let r' ← mirror r
